@@ -240,7 +240,12 @@ func famHostile(w *World) {
 				w.event("hostile", "%s pre-handshake: %s", rp.Name, d)
 				c.Send(b)
 			case 1: // handshake with one field off
-				f := wire.EncInit(wire.TInitReq, 1, []uint16{0, 1, 2, 3}[scn(4)], stdInitParams("0.0.0.0:0", rp.Name)[:scn(3)])
+				hpv := []string{"0.0.0.0:0", "", ":0", "nonsense", "10.0.9.9:1"}[scn(5)] // odd host_port values in an otherwise valid init req
+				np := scn(3)
+				if hpv != "0.0.0.0:0" {
+					np = len(stdInitParams(hpv, rp.Name))
+				}
+				f := wire.EncInit(wire.TInitReq, 1, []uint16{0, 1, 2, 3}[scn(4)], stdInitParams(hpv, rp.Name)[:np])
 				if scnChance(1, 3) {
 					f = f[:wire.HeaderSize+scn(len(f)-wire.HeaderSize)]
 				}
